@@ -594,7 +594,13 @@ static void handle(char *line) {
     flush_bg_events();
     if (rc == LDB_OK) printf("opts mfs=%llu\n", (unsigned long long)g_opt.max_file_size);
     printf("open %d cmp=%s\n", rc, g_cmpname);
-    if (g_db && g_faultmode) { t_nofault++; printf("recovered %llu ", (unsigned long long)g_db->versions->last_sequence); dump_internal(g_db); fputc('\n', stdout); t_nofault--; }
+    if (g_db && g_faultmode) { t_nofault++; printf("recovered %llu ", (unsigned long long)g_db->versions->last_sequence); dump_internal(g_db); fputc('\n', stdout); t_nofault--;
+      /* the dump has opened every table: evict them again, a freshly opened database has a cold table cache (so that what
+         follows -- a compaction, a get -- has to open and read its tables inside the fault window) */
+      { int level; size_t i; ldb_mutex_lock(&g_db->mutex);
+        for (level = 0; level < LDB_NUM_LEVELS; level++) for (i = 0; i < g_db->versions->current->files[level].length; i++)
+          ldb_tables_evict(g_db->table_cache, ((ldb_filemeta_t *)g_db->versions->current->files[level].items[i])->number);
+        ldb_mutex_unlock(&g_db->mutex); } }
     if (g_journal) jprint_new();
     if (g_db) { wait_quiescent(); flush_bg_events(); g_structural = 0; dump_ver(); dump_mem("mem", g_db->mem); }
   } else if (nf == 1 && !strcmp(f[0], "close")) {
